@@ -104,6 +104,35 @@ Definition if_none_match_refusals (tag v : string) (d : option string) : list N 
        | Some t => if String.eqb t tag then [412] else []
        end.
 
+(** The shape of a quoted string (RFC 7232 entity-tag without the weak prefix, as the
+    property reads it): opening and closing double quote, no unescaped double quote
+    in between.  A header value the decoder accepts must have this shape. *)
+Definition dquote : ascii := """"%char.
+Definition backslash : ascii := "\"%char.
+
+Fixpoint interior_ok (s : string) (escaped : bool) : bool :=
+  (* [s] is what follows the opening quote; true iff the first unescaped quote ends [s] *)
+  match s with
+  | EmptyString => false
+  | String a r =>
+    if escaped then interior_ok r false
+    else if Ascii.eqb a backslash then interior_ok r true
+    else if Ascii.eqb a dquote then (match r with EmptyString => true | _ => false end)
+    else interior_ok r false
+  end.
+
+Definition looks_quoted (v : string) : bool :=
+  match v with
+  | String a r => Ascii.eqb a dquote && interior_ok r false
+  | EmptyString => false
+  end.
+
+Definition decoder_shape_ok (v : string) (d : option string) : bool :=
+  match d with Some _ => looks_quoted v | None => true end.
+
+Definition cond_shape_ok (r : request) : bool :=
+  decoder_shape_ok (h_if_match r) (d_if_match r) && decoder_shape_ok (h_if_none_match r) (d_if_none_match r).
+
 Definition cond_refusals (tag : string) (r : request) : list N :=
   if_match_refusals tag (h_if_match r) (d_if_match r) ++
   if_none_match_refusals tag (h_if_none_match r) (d_if_none_match r).
@@ -297,4 +326,9 @@ Definition spec_ok (root : path) (sb : option node) (r : request) (o : response)
     | _ => true
     end
   end &&
-  negb (r_leak o).
+  negb (r_leak o) &&
+  (* a conditional header that was decoded to a tag is a quoted string, and an existing
+     resource has a (non-empty) entity tag to compare it with *)
+  (if existsb (String.eqb (meth r)) ["PUT"; "DELETE"]%string
+   then cond_shape_ok r && (negb (mapped (M (req_target root r))) || negb (String.eqb tag ""))
+   else true).
